@@ -184,10 +184,8 @@ Definition P_C18 (k : scase) (o : val) : bool :=
   match o with
   | VList [VList qa; VList ha; VList ta] =>
       Nat.eqb (length qa) (length (sc_queries k)) && Nat.eqb (length ha) (length (sc_headers k)) &&
-      (* every algebra tree after the real _optimize_node is the tree the model computes (C18_opt_* characterise it:
-         VALUES first in every Join, nothing else moved, idempotent) *)
-      Nat.eqb (length ta) (length (sc_trees k)) &&
-      forallb (fun ta : alg * val => val_eqb (snd ta) (valg (opt (fst ta)))) (combine (sc_trees k) ta) &&
+      (* the algebra trees after the real _optimize_node are part of "implementation = model" (the model computes opt, which
+         C18_opt_* characterise), not of the property: another rewriting that answers the same would not violate C18 *)
       forallb (fun qa : ((str * bool) * option (list str)) * val => let '(qr, a) := qa in
                  let expected := vsorted (rel_answer (inv_of k) (snd (fst qr)) (snd qr)) in
                  val_eqb a (VList [expected; expected; expected; expected])) (combine (combine (sc_queries k) (sc_renderings k)) qa)
